@@ -14,7 +14,9 @@ ASSUMPTIONS = [
     "static order fields other than quantity/price (side, kind, time in force, strategy) are not modelled; they are never read by the tracking code",
 ]
 SOURCE_FILES = ["barter/src/engine/state/order/mod.rs", "barter/src/engine/state/order/in_flight_recorder.rs", "barter-execution/src/order/state.rs",
-                "barter-execution/src/order/mod.rs", "barter/src/engine/state/instrument/mod.rs", "barter/src/engine/state/mod.rs"]
+                "barter-execution/src/order/mod.rs", "barter/src/engine/state/instrument/mod.rs", "barter/src/engine/state/mod.rs",
+                "barter-execution/src/order/request.rs", "barter-execution/src/order/id.rs", "barter-execution/src/error.rs", "barter-integration/src/snapshot.rs",
+                "barter-instrument/src/lib.rs"]
 CLAIM = True
 TECHNIQUE = "Lean 4: refinement of the order table to a per-client-order-id lifecycle automaton (case analysis per step, induction over histories) + frame lemmas; correspondence with EngineState::update_from_account / record_in_flight_*"
 LEVEL_TEXT = ("Proof. lean/BarterModel/Props/C01.lean proves, for every order table and every finite op history: frame (ops about one id / instrument never change another: "
@@ -23,4 +25,6 @@ LEVEL_TEXT = ("Proof. lean/BarterModel/Props/C01.lean proves, for every order ta
               "tracking on request-sent / open report (tracked_on_*), failed cancel restores the last confirmed open (cancel_err_restores), and the held exchange timestamp never "
               "moves back (time_monotone_step, time_monotone_run). Unbounded in history length, number of ids and instruments. The suite only samples single (state,input) pairs.")
 LEVEL_NOTE = ("Trusted: Lean kernel; axioms propext/Classical.choice/Quot.sound; hand-written model of Orders tied to the code by sampled correspondence through the real EngineState "
-              "(400 quick / 20k random + exhaustive length<=3 thorough). Hypotheses: exchangeStatesOnly (no hand-built CancelInFlight snapshots); time monotonicity excludes duplicate open requests for a tracked id.")
+              "(400 quick / 20k random + exhaustive length<=3 thorough). Hypotheses: exchangeStatesOnly (no hand-built CancelInFlight snapshots); time monotonicity excludes duplicate open requests for a tracked id. "
+              "Additionally tied by translation: Orders::{update_from_order_snapshot, update_from_cancel_response, record_in_flight_cancel, record_in_flight_open} (with Order::to_active, Order::from(&OrderRequestOpen), ActiveOrderState::open_meta, Open::quantity_remaining and their types) are regenerated from the current source on every run by tools/rust2lean_sm.py (Generated/Machines3.lean; the FnvHashMap and its Entry API read through the translator's explicit map vocabulary, an association list proved to be a finite map) and proved equal to the Orders model for all tables and inputs (map_machine_agrees_with_source); the translator, its prelude and the stated meaning of the map vocabulary are trusted for that tie.")
+PREBUILD = [["python3", "tools/rust2lean_sm.py", "--require", "orders"]]
